@@ -88,9 +88,9 @@ package rang3
 // The range heap (container/heap underneath) is specified abstractly and its
 // contract is assumed; the bounded harness exercises it. heapWf: every element is a
 // well-formed range. heapMin: the least element w.r.t. Compare.
-//@ ghost func heapWf(rh *rangeHeap) bool
-//@ ghost func heapMin(rh *rangeHeap) Range
-//@ ghost func heapLen(rh *rangeHeap) int
+//@ ghost func heapWf(rh *rangeHeap) bool reads fields(rangeHeap), elems(Range)
+//@ ghost func heapMin(rh *rangeHeap) Range reads fields(rangeHeap), elems(Range)
+//@ ghost func heapLen(rh *rangeHeap) int reads fields(rangeHeap), elems(Range)
 //
 //@ func newRangeHeap
 //@   trusted
@@ -111,19 +111,19 @@ package rang3
 //@   ensures result == old(heapMin(rh)) && (old(heapWf(rh)) ==> wf(result) && heapWf(rh))
 //@   ensures heapLen(rh) == old(heapLen(rh)) - 1
 //@   ensures heapLen(rh) > 0 ==> Compare(result, heapMin(rh)) <= 0
-//@   modifies fields(rangeHeap), elems(Range), maps(rh.set)
+//@   modifies fields(rangeHeap), elems(Range)
 //@ func rangeHeap.Push
 //@   trusted
 //@   requires !isnil(rh)
 //@   ensures (old(heapWf(rh)) && wf(r)) ==> heapWf(rh)
 //@   ensures heapLen(rh) >= old(heapLen(rh))
-//@   modifies fields(rangeHeap), elems(Range), maps(rh.set)
+//@   modifies fields(rangeHeap), elems(Range)
 //
 // split(o, a, b, c): a, b, c are well-formed pieces that tile o exactly (c may repeat b).
 //@ pure func split(o Range, a Range, b Range, c Range) bool = wf(a) && wf(b) && wf(c) && (forall p rune :: in(p, o) <==> in(p, a) || in(p, b) || in(p, c)) && !(exists p rune :: in(p, a) && in(p, b)) && (c == b || (!(exists p rune :: in(p, a) && in(p, c)) && !(exists p rune :: in(p, b) && in(p, c))))
 //
 //@ func Normalize
 //@   skip frame
-//@   requires allwf(ranges)
+//@   requires allwf(ranges) && !isnil(onChange)
 //@   calls onChange(o, a, b, c) requires wf(o) && split(o, a, b, c)
 //@   loop 0 invariant !isnil(rh) && heapWf(rh)
